@@ -6,6 +6,8 @@ import GettsimVerif.Core.Process
 import GettsimVerif.Core.Typing
 import GettsimVerif.Core.Sym
 import GettsimVerif.Core.Sign
+import GettsimVerif.Core.TypeInfer
+import GettsimVerif.Core.PEval
 /- Dispatch of the line protocol to the executable models. -/
 open Lean GV
 
@@ -56,6 +58,59 @@ def dateInfo (o : Int) : Json :=
   Json.mkObj [("ymd", oInts [y, m, d]), ("jan1", oInts [Dates.jan1 o]), ("subYear", oInts [Dates.subYear o]),
               ("back", oInts [Dates.ofYMD y m d])]
 
+/-! ### result-kind analysis (C03) -/
+
+def jKindName : String → Except String TypeInfer.Kind
+  | "int" => pure .int | "flt" => pure .flt | "bool" => pure .bool | "inf" => pure .inf
+  | "str" => pure .str | "tree" => pure .tree | "none" => pure .none
+  | s => throw s!"bad kind {s}"
+
+/-- {"fun": F, "args": [[kind names] per argument],
+     "declared": optional "float"|"int"|"bool",
+     "fixed": optional [[argname, treename]] (trees stored by "set_trees"),
+     "consts": optional [[argname, Val]]}
+→ the kinds the result can have (sorted by name), whether the body can fall off its end, whether
+the body contains constructs the model cannot evaluate, and (if `declared` is given) whether the
+cast to the declared type is lossless for all these kinds.  "fixed"/"consts" give KNOWN argument
+values (parameter trees of one policy date); their kind is added to the argument's kind list. -/
+def opTypeInfer (envs : List (String × Lang.Val)) (j : Json) : Except String Json := do
+  let f ← jFun (← field j "fun")
+  let argKinds0 ← (← jArr (← field j "args")).mapM fun a => do
+    pure (TypeInfer.KindSet.ofList (← (← jArr a).mapM fun k => do jKindName (← jStr k)))
+  if argKinds0.length ≠ f.args.length then
+    throw s!"type_infer: {f.args.length} arguments, {argKinds0.length} kind lists"
+  let fixed ← match j.getObjVal? "fixed" with
+    | .ok (.arr xs) => xs.toList.mapM fun kv => match kv with
+      | .arr #[.str a, .str t] => match envs.find? (·.1 = t) with
+        | some (_, v) => pure (a, v)
+        | none => throw s!"unknown tree {t}"
+      | _ => throw "bad fixed entry"
+    | _ => pure []
+  let consts ← match j.getObjVal? "consts" with
+    | .ok (.arr xs) => xs.toList.mapM fun kv => match kv with
+      | .arr #[.str a, v] => do pure (a, ← jVal v)
+      | _ => throw "bad consts entry"
+    | _ => pure []
+  let K : Lang.Env := (fixed ++ consts).filter fun p => f.args.contains p.1
+  -- a known argument has (also) the kind of its known value
+  let argKinds := (f.args.zip argKinds0).map fun (a, ks) => match Lang.Env.get? K a with
+    | some v => ks ∪ TypeInfer.KindSet.single (TypeInfer.kindOf v)
+    | none => ks
+  let res := TypeInfer.tyFunResK K argKinds f
+  let kinds := TypeInfer.tyFunK K argKinds f
+  let names := (kinds.toList.map TypeInfer.Kind.name).toArray.qsort (· < ·)
+  let base := [("kinds", Json.arr (names.map Json.str)), ("falls_off", .bool res.falls),
+               ("unmodelled", .bool (TypeInfer.unmodelledB f.body)),
+               ("known_used", .bool (!(TypeInfer.usableK K f.body).isEmpty))]
+  let extra ← match j.getObjVal? "declared" with
+    | .ok (.str d) => do
+      let k : TypeInfer.Kind ← match d with
+        | "float" => pure .flt | "int" => pure .int | "bool" => pure .bool
+        | s => throw s!"bad declared type {s}"
+      pure [("lossless", Json.bool (TypeInfer.losslessFor k kinds))]
+    | _ => pure []
+  pure (Json.mkObj (base ++ extra))
+
 def statefulOp (st : St) (op : String) (j : Json) : Except String (Option (St × Json)) := do
   match op with
   | "load_raw" => let st' ← opLoadRaw j; pure (some (st', Json.mkObj [("ok", .str "loaded")]))
@@ -70,6 +125,7 @@ def statefulOp (st : St) (op : String) (j : Json) : Except String (Option (St ×
       | .arr #[.str n, y] => do pure (n, Lang.Val.tree (← jY y))
       | _ => throw "bad tree entry"
     pure (some ({ st with envs := kvs }, Json.mkObj [("ok", .str "stored")]))
+  | "type_infer" => pure (some (st, ← opTypeInfer st.envs j))
   | "run_rule" =>
     -- {"fun": F, "fixed": [[argname, treename]], "rows": [[vals for the remaining args in order]]}
     let f ← jFun (← field j "fun")
@@ -369,9 +425,32 @@ def opSignTable (j : Json) : Except String Json := do
   pure (Json.mkObj [("ok", .arr (tbl.map fun (n, a) => Json.arr #[.str n, .str (absStr a)]).toArray),
                     ("le", .arr (les.map fun (a, b) => Json.arr #[.str a, .str b]).toArray)])
 
+/-- the constant nodes (`{"k":"const","v":…}`: parameter groups) of a graph with their values -/
+def jConsts (js : List Json) : Except String (List (String × Lang.Val)) := do
+  let cs ← js.mapM fun j => do
+    let k ← field j "kind"
+    match ← str k "k" with
+    | "const" => do pure (some (← str j "name", ← jVal (← field k "v")))
+    | _ => pure none
+  pure (cs.filterMap id)
+
+/-- same input and output as `sign_table`, but every rule is first specialised to the constant nodes among its
+arguments (`PEval.peGraph`: verified constant propagation + folding, `Lemmas/PEval.lean`, `Props/C16PE.lean`) -/
+def opSignTablePE (j : Json) : Except String Json := do
+  let js ← jArr (← field j "nodes")
+  let nodes ← js.mapM jGNode
+  let consts ← jConsts js
+  let nodes' := PEval.peGraph consts nodes
+  let tbl := Sign.signTable nodes'
+  let les := Sign.leFacts nodes'
+  pure (Json.mkObj [("ok", .arr (tbl.map fun (n, a) => Json.arr #[.str n, .str (absStr a)]).toArray),
+                    ("le", .arr (les.map fun (a, b) => Json.arr #[.str a, .str b]).toArray)])
+
 def dispatch (j : Json) : Except String Json := do
   let op ← str j "op"
   if op = "sign_table" then return ← opSignTable j
+  if op = "sign_table_pe" then return ← opSignTablePE j
+  if op = "type_infer" then return ← opTypeInfer [] j
   if op = "sym" then return ← opSym j
   if op = "chain_run" then return ← opChainRun j
   if op.startsWith "typing_" then return ← opTyping op j
